@@ -187,6 +187,14 @@ def run_check(pid, tier, seed):
     undec = [o for o in obs if obligation_undecided(o)]
     # vacuity: the precondition cover must not be refuted, and per function at least one exit path must be reachable
     cover_refuted = [o for o in all_covers if o.kind == "cover" and obligation_failed(o)]
+    # a call site whose callee can return normally on none of the covered paths: the assumed postcondition contradicts the caller's state
+    sites = {}
+    for o in all_covers:
+        if o.kind == "callret":
+            sites.setdefault(o.extra.get("site"), []).append(o)
+    for site, cs in sites.items():
+        if cs and all(obligation_failed(o) for o in cs):
+            cover_refuted.append(cs[0])
     by_fn = {}
     for o in all_covers:
         if o.kind == "canary":
